@@ -48,6 +48,9 @@ pub fn gen_ctx(u: &mut Chooser) -> Vec<(String, V)> {
         ("s1".to_string(), V::Str(gen_string(u))),
         ("m0".to_string(), V::Map(vec![(V::s("k"), list_of(u, 0)), (V::s("a"), V::Str(gen_string(u))), (V::Int(1), list_of(u, 1))])),
         ("b0".to_string(), V::Bool(u.flip())),
+        // context variables that share their names with iteration variables used by some programs
+        ("x".to_string(), V::Int(1000 + u.range(0, 9))),
+        ("y".to_string(), V::List(vec![V::Int(77)])),
         ("any".to_string(), gen_value(u, 2, ValOpts::CORE)),
     ]
 }
@@ -61,7 +64,7 @@ pub fn gen_prog(u: &mut Chooser, ctx: &[(String, V)]) -> E {
     let idx = |a: E, i: i64| E::Index(b(a), b(E::Lit(V::Int(i))));
     let mac = |m: Mac, r: E, body: E| E::Macro(m, b(r), "x".into(), vec![body]);
     let x = || E::var("x");
-    match u.below(26) {
+    match u.below(31) {
         0 => add(l(u), lit_l(u)),
         1 => add(l(u), l(u)),
         2 => {
@@ -95,6 +98,12 @@ pub fn gen_prog(u: &mut Chooser, ctx: &[(String, V)]) -> E {
         21 => add(E::var("any"), E::var("any")),
         22 => E::List(vec![E::var("any"), E::var("m0"), E::var("ll")]),
         23 => mac(Mac::Map, E::var("m0"), E::bin(Op::Add, E::List(vec![x()]), l(u))),
+        // other iteration variables, bodies reading the *context's* x / y
+        24 => E::Macro(Mac::Map, b(l(u)), "y".into(), vec![E::List(vec![E::var("x"), E::var("y")])]),
+        25 => E::Macro(Mac::Filter, b(l(u)), "z".into(), vec![E::bin(Op::Gt, E::var("x"), E::var("z"))]),
+        26 => E::Macro(Mac::Map, b(E::var("ll")), "z".into(), vec![E::bin(Op::Add, E::var("z"), E::var("y"))]),
+        27 => E::Macro(Mac::Map, b(l(u)), "x".into(), vec![E::Macro(Mac::Map, b(l(u)), "y".into(), vec![E::bin(Op::Add, E::var("x"), E::var("y"))])]),
+        28 => E::List(vec![E::var("x"), E::var("y")]),
         _ => {
             // a random typed program over the same context
             let vars: Vec<Var> = ctx
@@ -156,11 +165,26 @@ pub fn check_history(h: &History) -> Outcome {
                     Err(pn) => return fail(format!("step {k}: `{src}` {}", pn.short())),
                 };
                 let r = sut::from_result(res.clone());
+                // every execution, first or repeated, must be what the program yields "alone": the reference evaluator's result
+                let mut st = crate::model::eval::St::new(&h.ctx, vec![]);
+                let mut order_dependent = false;
+                match crate::model::eval::eval(&h.programs[*i], &mut st) {
+                    Err(crate::model::eval::Stop::Unsupported(why)) => {
+                        // ranging over a map with several entries: results may legitimately differ between executions
+                        // ("up to the unspecified iteration order of maps")
+                        order_dependent = why.contains("multi-entry map");
+                    }
+                    model => {
+                        if !crate::props::c03::agree(&model, &r) {
+                            return fail(format!("step {k}: `{src}` yields {} in this history; executed alone against this context the reference semantics give {:?} (earlier steps: {:?})", r.show(), model, &h.steps[..k]));
+                        }
+                    }
+                }
                 match &first[*i] {
                     None => first[*i] = Some(r),
                     Some(f) => {
                         reexec += 1;
-                        if !same_result(f, &r) {
+                        if !order_dependent && !same_result(f, &r) {
                             return fail(format!("step {k}: executing `{src}` again against the unchanged context gives {}, the first execution gave {} (context {})", r.show(), f.show(), sut::trunc(&format!("{:?}", h.ctx), 500)));
                         }
                         let appends = h.programs[*i].any(&|x| matches!(x, E::Bin(Op::Add, ..) | E::Macro(..)));
@@ -322,8 +346,10 @@ pub fn check_threads(c: &ThreadCase) -> Outcome {
                 Err(e) => return fail(e.clone()),
             };
             for (k, (g, e)) in got.iter().zip(&expected[t]).enumerate() {
-                if !same_result(g, e) {
-                    let (i, _) = c.threads[t].1[k];
+                let (i, _) = c.threads[t].1[k];
+                // a macro ranging over a map *literal* iterates a freshly built map each time: its order is unspecified
+                let order_dependent = c.programs[i].any(&|x| matches!(x, E::Macro(_, r, _, _) if r.any(&|y| matches!(y, E::Map(es) if es.len() > 1))));
+                if !order_dependent && !same_result(g, e) {
                     return fail(format!("repetition {rep}, thread {t} of {}, step {k}: `{}` yields {} while running concurrently, alone it yields {}", c.threads.len(), srcs[i], g.show(), e.show()));
                 }
             }
